@@ -12,6 +12,7 @@ inductive Ev where
   | arr (key : Key) (id : Nat) (ts : Option Int)
   | emit (late : Bool) (key : Key) (start stop : Int) (ids : List Nat)
   | forced (key : Key) (start stop : Int) (ids : List Nat)   -- delivered by a manual flush (`TriggerWindow`): every clause but the watermark one
+  | idle (now : Int)   -- a ticker update found the source idle (IDLETIMEOUT elapsed) at wall-clock reading `now`
   deriving Repr, DecidableEq
 
 structure Cfg where
@@ -34,6 +35,7 @@ structure Seen where
 structure Scan where
   seen   : List Seen := []
   maxTs  : Option Int := none
+  floor  : Option Int := none                        -- the watermark an idle ticker update set from the wall clock (largest so far)
   firsts : List (Key × Int × Int × List Nat) := []   -- delivered sessions: key, start, stop, current ids (updated by late deliveries)
   forcedIds : List Nat := []                         -- rows of sessions delivered by a manual flush (those are not kept open for late rows)
   expect : List (Key × Nat) := []                    -- late rows that fell into a delivered session still inside the allowance: a re-delivery must follow
@@ -41,7 +43,13 @@ structure Scan where
   deriving Repr
 
 def maxOpt (o : Option Int) (x : Int) : Int := match o with | none => x | some y => if y < x then x else y
-def wmOf (c : Cfg) (s : Scan) : Option Int := s.maxTs.map (· - c.ooo)
+def wmOf (c : Cfg) (s : Scan) : Option Int := s.maxTs.map (fun m => maxOpt s.floor (m - c.ooo))
+
+/-- an idle ticker update: no effect before the first valid event -/
+def stepIdle (c : Cfg) (s : Scan) (now : Int) : Scan :=
+  match s.maxTs with
+  | none => s
+  | some _ => { s with floor := some (maxOpt s.floor (now - c.ooo)) }
 def fail (s : Scan) (m : String) : Scan := if s.err.isSome then s else { s with err := some m }
 def lookup (s : Scan) (id : Nat) : Option Seen := s.seen.find? (·.id = id)
 
@@ -50,9 +58,10 @@ def stepArr (c : Cfg) (s : Scan) (k : Key) (id : Nat) (ts : Int) : Scan :=
     { s with seen := s.seen ++ [{ key := k, id := id, ts := ts, onTime := true, corrupt := true, wmAtArrival := wmOf c s }] }
   else
     let m := maxOpt s.maxTs ts
+    let w := maxOpt s.floor (m - c.ooo)
     { s with maxTs := some m,
-             seen := s.seen ++ [{ key := k, id := id, ts := ts, onTime := decide (m - c.ooo ≤ ts), corrupt := false,
-                                  wmAtArrival := some (m - c.ooo) }] }
+             seen := s.seen ++ [{ key := k, id := id, ts := ts, onTime := decide (w ≤ ts), corrupt := false,
+                                  wmAtArrival := some w }] }
 
 def insertInt (x : Int) : List Int → List Int
   | [] => [x]
@@ -132,6 +141,7 @@ def step (c : Cfg) (s : Scan) : Ev → Scan
   | .emit false k a b ids => checkFirst c s k a b ids
   | .forced k a b ids => checkFirst c s k a b ids true
   | .emit true k a b ids => checkLate c s k a b ids
+  | .idle now => stepIdle c s now
 
 def scan (c : Cfg) (evs : List Ev) : Scan := evs.foldl (step c) {}
 
